@@ -171,4 +171,17 @@ def execJson (r : AFV.NestExec.ExecResult) : Json :=
     ("leakEnergy", ofRat r.leakEnergy),
     ("totalEnergy", ofRat r.totalEnergy)]
 
+/-- `{"arch":…,"workload":…,"mapping":…}` → `{"analytic": result|null, "oversubscribed": bool|null, "wf": bool, "exec": result}` -/
+def evalReply (req : Json) : Json :=
+  match (field? req "arch").bind arch?, (field? req "workload").bind workload?, (field? req "mapping").bind mapping? with
+  | some arch, some (wq, wn), some m =>
+    let an := analytic arch wq (castMapping m)
+    let ex := AFV.NestExec.exec arch wq wn m
+    Json.mkObj [
+      ("analytic", match an with | some r => resultJson r | none => Json.null),
+      ("oversubscribed", match an with | some r => Json.bool (r.oversubscribed arch) | none => Json.null),
+      ("wf", Json.bool (WF arch wn m)),
+      ("exec", execJson ex)]
+  | _, _, _ => err "malformed"
+
 end AFV.Driver.NestJson
